@@ -247,6 +247,13 @@ def observe_column(col):
         masks = [0] * len(vals)
     else:
         masks = [int(x) for x in np.asarray(m.array).tolist()]
+    if len(vals) == 1:
+        # the scalar view of a single-row column must agree with the array view
+        item = col.as_item()
+        if str(item) != vals[0]:
+            raise Violation("view:as_item-differs-from-as_array", {"as_item": str(item), "as_array": vals[0]})
+    if len(col) != len(vals):
+        raise Violation("view:column-len", {"len": len(col), "values": len(vals)})
     return vals, masks
 
 
